@@ -46,7 +46,8 @@ def _cvc5_worker(job):
   fd, path = tempfile.mkstemp(suffix='.smt2', dir=os.environ.get('PYVC_TMP', None))
   try:
     with os.fdopen(fd, 'w') as f:
-      f.write(smt2)
+      # z3 prints its internal in-bounds / underspecified nth; cvc5 knows both as seq.nth
+      f.write(smt2.replace('seq.nth_i', 'seq.nth').replace('seq.nth_u', 'seq.nth'))
     try:
       p = subprocess.run([CVC5, '--strings-exp', '--tlimit=%d' % int(timeout_s * 1000), path],
                          capture_output=True, text=True, timeout=timeout_s + 5)
